@@ -24,7 +24,7 @@ MANIFEST = dict(
          "live Job.__init__ on every run and the model takes it as case data). C36_any_state: the same from any "
          "interpreter state. C36_check_decides_spec: the boolean check run on observed logs is equivalent to the "
          "Prop. C36_sharing_breaks_nested: with a shared Audit object (pre-fix) a two-node workflow violates it. "
-         "Correspondence: generated job trees (python/shell leaves, file inputs, commands that cannot be rendered, nested workflows, splits, failures "
+         "Correspondence: generated job trees (python/shell leaves, file inputs, commands that cannot be rendered, failures during output collection, nested workflows, splits, failures "
          "at any position, failing constructors) x {PROV, ALL, RESOURCE, NONE} x message_dir x {debug, cf} run "
          "through the real Submitter in fresh interpreters; the FileMessenger files, ordered by a second recording "
          "messenger, are compared message by message with the model's log and checked against the spec in Coq.",
@@ -75,6 +75,11 @@ def _child_defs():
             raise ValueError("boom")
         return x
 
+    @python.define(outputs={"out": int})
+    def PyBadOut(x: int, k: int) -> int:
+        return [x, "not an integer"]          # the body returns; storing it in the `int` output fails
+
+    ShMiss = shell.define("true <x:int> <k:int> <out|missing:File>")     # the command succeeds; the output file is not there
     ShTrue = shell.define("true <x:int> <k:int>")
     ShFalse = shell.define("false <x:int> <k:int>")
     ShEcho = shell.define("echo <x:int> <k:int> <word:str>")
@@ -90,6 +95,10 @@ def _child_defs():
                 Py0(k=nd["k"], dep=x).split(("x", "fail"), x=list(range(nd["n"])), fail=[i == nd["bad"] for i in range(nd["n"])])
         if kind == "sh":
             return (ShFalse if nd["fails"] else ShTrue)(x=x, k=nd["k"])
+        if kind == "pybadout":
+            return PyBadOut(x=x, k=nd["k"])
+        if kind == "shmiss":
+            return ShMiss(x=x, k=nd["k"])
         if kind == "shbad":      # ShellTask.cmdline raises ValueError("No closing quotation") for this value (F23)
             return ShEcho(x=x, k=nd["k"], word="it's")
         if kind == "wf":
@@ -104,7 +113,7 @@ def _child_defs():
         for nd in json.loads(spec):
             n = workflow.add(make_task(nd, cur, files), name=nd["name"])
             if nd["kind"] != "split":    # a split node is a sink: its list output is not chained on
-                cur = n.return_code if nd["kind"] in ("sh", "shbad") else n.out
+                cur = n.return_code if nd["kind"] in ("sh", "shbad", "shmiss") else n.out
         return cur
 
     return make_task
@@ -264,6 +273,8 @@ class Gen:
         r = self.rng
         if r.random() < 0.07:
             return {"kind": "shbad", "k": self.k(), "name": name, "fails": True}
+        if r.random() < 0.12:     # failure after the body returned: while the outputs are collected
+            return {"kind": r.choice(["pybadout", "shmiss"]), "k": self.k(), "name": name, "fails": True}
         if r.random() < 0.3:
             return {"kind": "sh", "k": self.k(), "name": name, "fails": r.random() < 0.2}
         return {"kind": "py", "k": self.k(), "name": name, "files": r.choice([0, 0, 0, 1, 2]),
@@ -305,15 +316,18 @@ def model_nodes(nd, top):
     if kind == "py":
         return [coqio.app("Leaf", coqio.nat(nd["k"]), coqio.string(nd["name"]),
                           coqio.lst([coqio.string("f%d" % (i + 1)) for i in range(nd["files"])]), "false",
-                          coqio.boolean(nd["fails"]), "false")]
+                          coqio.boolean(nd["fails"]), "false", "false")]
     if kind == "sh":
-        return [coqio.app("Leaf", coqio.nat(nd["k"]), coqio.string(nd["name"]), "[]", "true", coqio.boolean(nd["fails"]), "false")]
+        return [coqio.app("Leaf", coqio.nat(nd["k"]), coqio.string(nd["name"]), "[]", "true", coqio.boolean(nd["fails"]), "false", "false")]
     if kind == "shbad":
-        return [coqio.app("Leaf", coqio.nat(nd["k"]), coqio.string(nd["name"]), "[]", "true", "true", "true")]
+        return [coqio.app("Leaf", coqio.nat(nd["k"]), coqio.string(nd["name"]), "[]", "true", "true", "true", "false")]
+    if kind in ("pybadout", "shmiss"):     # body ok, Outputs._from_job raises
+        return [coqio.app("Leaf", coqio.nat(nd["k"]), coqio.string(nd["name"]), "[]", coqio.boolean(kind == "shmiss"),
+                          "false", "false", "true")]
     if kind == "split":
         name = "Py0" if top else nd["name"]
         leaves = [coqio.app("Leaf", coqio.nat(nd["k"] + 1 + i), coqio.string(name), "[]", "false",
-                            coqio.boolean(nd["bad"] == i), "false") for i in range(nd["n"])]
+                            coqio.boolean(nd["bad"] == i), "false", "false") for i in range(nd["n"])]
         if top:   # Submitter.__call__ wraps an outer split into an implicit workflow job called "main"
             return [coqio.app("Wf", coqio.nat(nd["k"]), coqio.string("main"), coqio.lst(leaves), "false")]
         return leaves
